@@ -120,7 +120,8 @@ Array<String> TextFile::lines()
 		return lines;
 	while (!end()) {
 		lines << String();
-		readLine(lines.last());
+		if (!readLine(lines.last()) && error()) // a read error does not set the end-of-file indicator
+			break;
 	}
 	return lines;
 }
